@@ -35,6 +35,7 @@ CONSTANTS NH,      \* handles
           MaxLen,  \* largest element count explored
           MaxArg,  \* largest offset/count argument offered
           NV,      \* element values 1..NV (0 = default constructed)
+          CTSet,   \* content types offered to new/reserve (subset of CTypes)
           Prune,   \* TRUE: handle 1 is the actor (behaviour export)
           Api      \* "c": C calls with traits; "xtyped"/"xunique": typed_array<T>/unique_array<T>
                    \* and the buffer members trim/skip/copy/move with a tracked class T (C++)
@@ -69,6 +70,13 @@ AllocSize(n) == IF GranE > 0 THEN ((n + GranE - 1) \div GranE) * GranE
 \* the k-th copy construction of this call fails: the slot is default constructed instead
 Failed(d, k) == [i \in 1..Len(d) |-> IF i = k THEN 0 ELSE d[i]]
 
+\* content types: "raw" (no traits), "plain" (typed, no init/fini), "elem" and "elemB" (two managed
+\* element types with different finalisers).  Unmanaged content is counted in element sized
+\* units and written as the marker 9 (bytes, never elements).
+Managed(t) == t \in {"elem", "elemB"}
+CTypes == {"raw", "plain", "elem", "elemB"}
+Marks(n) == [i \in 1..n |-> 9]
+PadT(s, n, t) == IF Len(s) >= n THEN s ELSE s \o (IF Managed(t) THEN Zeros(n - Len(s)) ELSE Marks(n - Len(s)))
 Null == [data |-> <<>>, size |-> 0, imm |-> FALSE, nc |-> FALSE, typ |-> "none"]
 NewRec(d, sz, t) == [data |-> d, size |-> sz, imm |-> FALSE, nc |-> FALSE, typ |-> t]
 IsNull(h) == rec[h].typ = "none"
@@ -93,11 +101,12 @@ DetF(h, len, fail, fm) ==
              cre |-> <<>>, fin |-> Drop(r.data, len), ncopy |-> 0]
   ELSE IF (r.nc /\ used > 0) \/ used > AllocSize(len)
        THEN [ok |-> FALSE, same |-> TRUE, rec |-> r, cre |-> <<>>, fin |-> <<>>, ncopy |-> 0]
-       ELSE LET c == IF fm = 1 /\ fail >= 1 /\ fail <= used THEN FirstN(r.data, fail - 1)   \* fatal: copy stops
+       ELSE LET c == IF ~Managed(r.typ) THEN r.data                                      \* bytes: no constructor
+                     ELSE IF fm = 1 /\ fail >= 1 /\ fail <= used THEN FirstN(r.data, fail - 1)   \* fatal: copy stops
                      ELSE Failed(r.data, fail) IN
             [ok |-> TRUE, same |-> FALSE,
              rec |-> [r EXCEPT !.size = AllocSize(len), !.imm = FALSE, !.data = c],
-             cre |-> c, fin |-> <<>>, ncopy |-> used]
+             cre |-> c, fin |-> <<>>, ncopy |-> IF Managed(r.typ) THEN used ELSE 0]
 Det(h, len, fail) == DetF(h, len, fail, 0)
 Same(h) == [ok |-> TRUE, same |-> TRUE, rec |-> rec[h], cre |-> <<>>, fin |-> <<>>, ncopy |-> 0]
 
@@ -119,7 +128,8 @@ SetV(h, d, t) == /\ val' = [val EXCEPT ![h] = d]
 ---------------------------------------------------------------------------
 Answer(a, arg, ret, either) ==
   obs' = [a |-> a, arg |-> arg,
-          exp |-> [ret |-> ret, vals |-> val', lens |-> [g \in H |-> Len(val'[g])], typs |-> vtyp',
+          exp |-> [ret |-> ret, vals |-> [g \in H |-> IF Managed(vtyp'[g]) THEN val'[g] ELSE <<>>],
+                   lens |-> [g \in H |-> Len(val'[g])], typs |-> vtyp',
                    irefs |-> [k \in 1..NV |-> 1 + cnt'[k]],
                    nlive |-> LET RECURSIVE S(_) S(k) == IF k < 0 THEN 0 ELSE cnt'[k] + S(k - 1) IN S(NV),
                    bad |-> 0, dead |-> 0, dup |-> 0, orph |-> 0, either |-> either],
@@ -136,11 +146,11 @@ NoChange(a, arg, ret) ==
 
 ---------------------------------------------------------------------------
 (* driver-made buffer: elements constructed by the caller *)
-New(h, d, imm, nc) ==
-  LET arg == [h |-> h, data |-> d, imm |-> IF imm THEN 1 ELSE 0, nc |-> IF nc THEN 1 ELSE 0] IN
+New(h, d, imm, nc, t) ==
+  LET arg == [h |-> h, data |-> d, imm |-> IF imm THEN 1 ELSE 0, nc |-> IF nc THEN 1 ELSE 0, typ |-> t] IN
   /\ IsNull(h)
-  /\ Private(h, [data |-> d, size |-> AllocSize(Len(d)), imm |-> imm, nc |-> nc, typ |-> "elem"])
-  /\ SetV(h, d, "elem") /\ Account(d, <<>>)
+  /\ Private(h, [data |-> d, size |-> AllocSize(Len(d)), imm |-> imm, nc |-> nc, typ |-> t])
+  /\ SetV(h, d, t) /\ Account(d, <<>>)
   /\ ctr' = ctr + Len(d)
   /\ Answer("new", arg, "ok", FALSE)
 
@@ -255,34 +265,37 @@ ArrInsert(h, pos, d, fail, v) ==
                /\ Answer("insert", arg, IF top + n = 0 THEN "any" ELSE "ok", FALSE)
 
 (* mpt_array_slice(arr, off, len): missing elements are default constructed *)
+(* (unmanaged content: zero bytes, which the caller then owns)               *)
 Slice(h, off, n, fail) ==
   LET r == rec[h] used == Len(r.data) total == off + n
       arg == [h |-> h, off |-> off, n |-> n, fail |-> fail]
   IN
-  /\ r.typ = "elem"
+  /\ ~IsNull(h)
   /\ LET dr == IF total > r.size \/ r.imm \/ Shared(h) THEN Det(h, Max(used, total), fail) ELSE Same(h) IN
      IF ~dr.ok THEN Refuse("slice", arg, FALSE)
-     ELSE LET nd == Pad(dr.rec.data, total) IN
+     ELSE LET nd == PadT(dr.rec.data, total, r.typ) IN
           /\ Store(h, dr, nd)
-          /\ SetV(h, nd, "elem")
-          /\ Account(dr.cre \o Zeros(Len(nd) - Len(dr.rec.data)), dr.fin)
+          /\ SetV(h, nd, r.typ)
+          /\ Account(dr.cre \o SubSeq(nd, Len(dr.rec.data) + 1, Len(nd)), dr.fin)
           /\ UNCHANGED ctr
           /\ Answer("slice", arg, "ok", FALSE)
 
-(* mpt_array_reserve(arr, len, traits): t = "elem" keeps, t = "raw" retypes *)
-(* (every element destroyed).  len below the used count: keep or truncate. *)
+(* mpt_array_reserve(arr, len, traits): the same type keeps the content, any  *)
+(* other type (raw, plain, the other managed type) starts empty and every     *)
+(* element of the old content is destroyed.  len below the used count: keep  *)
+(* or truncate.                                                              *)
 Reserve(h, len, t, fail, v) ==
   LET r == rec[h] used == Len(r.data)
       arg == [h |-> h, len |-> len, typ |-> t, fail |-> fail]
       sameT == r.typ = t
-      short == sameT /\ t = "elem" /\ len < used
+      short == sameT /\ len < used
   IN
   IF r.typ = "none" \/ Shared(h) \/ r.imm
   THEN \* a no-copy buffer is not copied: the new private buffer starts empty (C04 records
        \* the lost content; for element lifetime only the destructions matter)
        LET trunc == (v = 0)
                 src  == IF ~sameT \/ r.nc THEN <<>> ELSE IF short /\ trunc THEN FirstN(r.data, len) ELSE r.data
-                keep == Failed(src, fail)
+                keep == IF Managed(t) THEN Failed(src, fail) ELSE src
        IN
             /\ v = 0 \/ (short /\ ~r.nc)
             /\ Private(h, NewRec(keep, AllocSize(Max(len, Len(keep))), t))
@@ -444,7 +457,10 @@ NextC ==
      \/ \E n \in 0..MaxArg, imm \in BOOLEAN, nc \in BOOLEAN :
            /\ Prune => ((imm \/ nc) => h = 1)
            /\ (Prune /\ h # 1) => n = 1
-           /\ New(h, Fresh(n), imm, nc)
+           /\ \E t \in CTSet :
+                 /\ (Prune /\ (h # 1 \/ imm \/ nc)) => t = "elem"
+                 /\ (Prune /\ ~Managed(t)) => n \in {0, 2}
+                 /\ New(h, IF Managed(t) THEN Fresh(n) ELSE Marks(n), imm, nc, t)
      \/ \E n \in 0..MaxArg, off \in (-2)..MaxArg, z \in {0, 1}, fm \in {0, 1} : \E f \in Fails(h, n) :
            /\ A /\ (z = 1 => n > 0 /\ f = 0) /\ (fm = 1 => f > 0)
            /\ SetTyped(h, Data(n, z), off, z, f, fm)
@@ -455,9 +471,12 @@ NextC ==
      \/ \E pos \in 0..MaxArg, n \in 0..MaxArg : A /\ BufInsert(h, pos, Fresh(n))
      \/ \E pos \in 0..MaxArg, n \in 0..MaxArg, f \in Fails(h, 0), v \in {0, 1} :
            A /\ ArrInsert(h, pos, Fresh(n), f, v)
-     \/ \E off \in 0..MaxArg, n \in 0..MaxArg, f \in Fails(h, 0) : A /\ Slice(h, off, n, f)
-     \/ \E n \in 0..MaxArg, t \in {"elem", "raw"}, f \in Fails(h, 0), v \in {0, 1} :
-           A /\ Reserve(h, n, t, f, v)
+     \/ \E off \in 0..MaxArg, n \in 0..MaxArg, f \in Fails(h, 0) :
+           A /\ (f > 0 => Managed(rec[h].typ)) /\ Slice(h, off, n, f)
+     \/ \E n \in 0..MaxArg, t \in CTSet, f \in Fails(h, 0), v \in {0, 1} :
+           /\ A /\ (f > 0 => Managed(rec[h].typ))
+           /\ (Prune /\ t # rec[h].typ) => n \in {0, MaxArg}
+           /\ Reserve(h, n, t, f, v)
      \/ \E g \in 0..NH : g # h /\ Clone(h, g)
      \/ \E n \in 0..MaxArg, f \in Fails(h, 0), v \in {0, 1} : A /\ Detach(h, n, f, v)
 
@@ -480,10 +499,11 @@ Spec == Init /\ [][Next]_vars
 
 ---------------------------------------------------------------------------
 TypeOK ==
-  \A h \in H : /\ vtyp[h] \in {"none", "elem", "raw"}
+  \A h \in H : /\ vtyp[h] \in CTypes \cup {"none"}
                /\ Len(rec[h].data) <= rec[h].size
                /\ h \in share[h]
-               /\ \A i \in 1..Len(rec[h].data) : rec[h].data[i] \in V
+               /\ \A i \in 1..Len(rec[h].data) :
+                     IF Managed(rec[h].typ) THEN rec[h].data[i] \in V ELSE rec[h].data[i] = 9
 
 AliasOK ==
   \A h \in H : /\ \A g \in share[h] : rec[g] = rec[h] /\ share[g] = share[h]
